@@ -268,4 +268,27 @@ def ref_dtype_per_depth(level, yields):
     return True
 
 
-REFS = dict(ref_dtype_per_depth=ref_dtype_per_depth, ref_ih_view=ref_ih_view, ref_ih_coherent=ref_ih_coherent, ref_series_assign=ref_series_assign, ref_has_missing=ref_has_missing, ref_index_equals=ref_index_equals, ref_series_equals=ref_series_equals, ref_set_fold=ref_set_fold, labels_of_array=labels_of_array, ref_map_slice_args=ref_map_slice_args, ref_windows=ref_windows, observed_windows=observed_windows, windows_agree=windows_agree, ref_tb_equals=ref_tb_equals, ref_slices_from_targets=ref_slices_from_targets)
+def ref_frame_assign_series(assign, value, fill_value, result):
+    """Frame.assign[row, columns](Series): under every addressed (row, column) the result holds the Series value labelled by that column (or the fill
+    value when the Series lacks it); every other cell is the container's"""
+    import numpy as np
+    cont = assign.container
+    rk, ck = assign.key if isinstance(assign.key, tuple) else (assign.key, None)
+    rows = list(np.arange(cont.shape[0])[rk].ravel()) if rk is not None else list(range(cont.shape[0]))
+    cols = list(np.arange(cont.shape[1])[ck].ravel()) if ck is not None else list(range(cont.shape[1]))
+    clabels = list(cont.columns.values)
+    vmap = dict(zip(list(value.index.values), list(value.values)))
+    for i in range(cont.shape[0]):
+        for j in range(cont.shape[1]):
+            got = result.iloc[i, j]
+            if i in rows and j in cols:
+                want = vmap.get(clabels[j], fill_value)
+            else:
+                want = cont.iloc[i, j]
+            same = (got != got and want != want) or got == want
+            if not same:
+                return False
+    return True
+
+
+REFS = dict(ref_frame_assign_series=ref_frame_assign_series, ref_dtype_per_depth=ref_dtype_per_depth, ref_ih_view=ref_ih_view, ref_ih_coherent=ref_ih_coherent, ref_series_assign=ref_series_assign, ref_has_missing=ref_has_missing, ref_index_equals=ref_index_equals, ref_series_equals=ref_series_equals, ref_set_fold=ref_set_fold, labels_of_array=labels_of_array, ref_map_slice_args=ref_map_slice_args, ref_windows=ref_windows, observed_windows=observed_windows, windows_agree=windows_agree, ref_tb_equals=ref_tb_equals, ref_slices_from_targets=ref_slices_from_targets)
